@@ -182,6 +182,7 @@ static struct {
     CtrObj co;
     int keyed, ki, klen;
     uint8_t tweak[16];
+    int lastop;          /* last tweak operation (not part of the canonical key: determined by the tweak) */
 } TW;
 
 static void t_addtw(const uint8_t *t, int len, int isnull)
@@ -241,7 +242,15 @@ static int t_validate_layout(void)
 static int t_enabled(int op)
 {
     if (t_ops[op].type == T_TKEY) return !TW.keyed || !tier_thorough();   /* thorough: one key per history keeps the BYTE closure tractable */
-    return TW.keyed;
+    if (!TW.keyed) return 0;
+    /* thorough BYTE tweaks: from a BYTE-tweak state every base operation is taken, but of the 4080 other
+     * BYTE tweaks only those at the same position (every value) and the 0xFF ones at every position -
+     * the update is xor-out / xor-in per byte, so BYTE x BYTE at unrelated positions adds nothing */
+    if (t_ops[op].type == T_TWEAK && t_ops[op].a >= t_nbase && TW.lastop >= t_nbase) {
+        int pa = (t_ops[op].a - t_nbase) / 255, pb = (TW.lastop - t_nbase) / 255, va = (t_ops[op].a - t_nbase) % 255 + 1;
+        return pa == pb || va == 0xFF;
+    }
+    return 1;
 }
 
 static void t_opname(int op, char *buf, size_t n)
@@ -334,7 +343,7 @@ static void t_apply(int op, int check)
         if (t_ctr) r = ctr_set_tweaked_key(t_c, &TW.co, KEYS[o->a], (unsigned)o->b);
         else if (t_c == CK_S128) LIB(r = skinny128_set_tweaked_key(&TW.k128, KEYS[o->a], (unsigned)o->b));
         else LIB(r = skinny64_set_tweaked_key(&TW.k64, KEYS[o->a], (unsigned)o->b));
-        TW.keyed = 1; TW.ki = o->a; TW.klen = o->b; memset(TW.tweak, 0, 16);
+        TW.keyed = 1; TW.ki = o->a; TW.klen = o->b; memset(TW.tweak, 0, 16); TW.lastop = 0;
         break;
     case T_TWEAK: {
         const void *tp = T_TWNULL[o->a] ? NULL : T_TW[o->a];
@@ -344,6 +353,7 @@ static void t_apply(int op, int check)
         else if (t_c == CK_S128) LIB(r = skinny128_set_tweak(&TW.k128, tp, (unsigned)T_TWLEN[o->a]));
         else LIB(r = skinny64_set_tweak(&TW.k64, tp, (unsigned)T_TWLEN[o->a]));
         memcpy(TW.tweak, T_TW[o->a], 16);      /* already zero padded; zero for null */
+        TW.lastop = o->a;
         break; }
     default:
         if (t_ctr) r = ctr_set_tweak(t_c, &TW.co, T_TW[2], (unsigned)o->a);
